@@ -5,7 +5,7 @@ exit 0: property held on everything explored (KNOWN-FINDING lines possible)
 exit 1: VIOLATION property=<ID> replay=<path>
 exit 2: tool error / inconclusive (never an alarm)
 """
-import argparse, json, os, sys, traceback
+import argparse, json, os, re, sys, traceback
 
 sys.path.insert(0, os.path.dirname(os.path.abspath(__file__)))
 import tlc, vlib  # noqa: E402
@@ -945,8 +945,89 @@ def sig_check(prop, tier):
     return run.finish()
 
 
+# =============================================================== fake! arms (C08)
+
+def arms_check(prop, tier):
+    import arms as A
+    import concurrent.futures, subprocess
+    run = Run(prop, tier)
+    max_len = 3 if tier == "quick" else 4
+    run.rule = ("arms = every arm of macro_rules! fake parsed from /repo/src/interface/macros.rs at check time; one generated [[bin]] per arm "
+                "(compile failures attributed by cargo --keep-going: the 'compiles' half is decided by rustc); each compiled arm runs every "
+                "script of <= %d calls over {matching, rejected} for N in 0..2 in a forked child; outcomes validated by TLC against "
+                "FakeCall(opts) (Trace_Arms); distinct = (arm, N, script)" % max_len)
+    run.assumptions = ["the arm parser recognises the matcher shape `func_type: [unsafe] [extern \"ABI\"] fn(..) -> $ret:ty | ()` followed by option keys; an arm it cannot parse is reported as inconclusive"]
+    r = tlc.check("MC_Arms", "MC_Arms", workers=4, timeout=600)
+    run.add_model(r)
+    if r["violation"]:
+        run.design_violation(r)
+    arms, unparsed, n_total = A.generate(max_len)
+    if unparsed or n_total != len(arms):
+        raise ToolError("inconclusive: %d arm(s) of fake! not understood by the generator: %s" % (n_total - len(arms), unparsed))
+    rc, out = A.build()
+    failed = set(int(m) for m in re.findall(r'could not compile `verif-arms` \(bin "arm_(\d+)"\)', out))
+    if rc != 0 and not failed:
+        raise ToolError("arms crate failed to build:\n" + out[-3000:])
+    for i in sorted(failed):
+        a = arms[i]
+        errs = [l for l in out.splitlines() if ("arm_%02d.rs" % i) in l][:3]
+        run.violation("C08 %s stage=compile" % A.arm_key(a), {"arm": a, "rustc": errs,
+                      "instantiation": open(os.path.join(A.CRATE, "src", "bin", "arm_%02d.rs" % i)).read()})
+    ok_arms = [i for i in range(len(arms)) if i not in failed]
+
+    def runbin(i):
+        p = subprocess.run([os.path.join(A.CRATE, "target", "debug", "arm_%02d" % i)], stdout=subprocess.PIPE, stderr=subprocess.DEVNULL,
+                           text=True, timeout=600)
+        return i, p.stdout
+    scen = []
+    with concurrent.futures.ThreadPoolExecutor(max_workers=8) as ex:
+        for i, text in ex.map(runbin, ok_arms):
+            a = arms[i]
+            cur = None
+            for line in text.splitlines():
+                try:
+                    e = json.loads(line)
+                except json.JSONDecodeError:
+                    continue
+                if e["ev"] == "ArmBegin":
+                    e.update({"keys": a["keys"], "unit": a["unit"], "unwinds": "extern" not in a["kind"], "kind": a["kind"]})
+                    cur = [e]
+                    scen.append(((i, e["sid"]), cur))
+                elif cur is not None:
+                    cur.append(e)
+    import itertools
+    idx = {k: n for n, (k, _) in enumerate(scen, 1)}
+    nproc = 6
+    slices = [scen[j::nproc] for j in range(nproc)]
+
+    def val(j):
+        return tlc.validate_traces("Trace_Arms", "Trace_Arms", [(idx[k], evs) for k, evs in slices[j]], WORK, "trace_arms_%d" % j, timeout=3000)
+    with concurrent.futures.ThreadPoolExecutor(max_workers=nproc) as ex:
+        results = list(ex.map(val, range(nproc)))
+    rev = {n: k for k, n in idx.items()}
+    bysid = dict(scen)
+    for tv in results:
+        run.states += tv["states"]
+        run.transitions += tv["transitions"]
+        run.traces += len(tv["accepted"])
+        for sid in tv["ids"]:
+            i, s_ = rev[sid]
+            evs = bysid[(i, s_)]
+            run.note_case("arm%d n=%s script=%s" % (i, evs[0]["n"], evs[0]["script"]))
+            if sid not in tv["accepted"]:
+                reached, total = tv["progress"][sid]
+                fe = evs[reached] if reached < len(evs) else None
+                run.violation("C08 %s stage=script n=%s script=%s at=%s" % (A.arm_key(arms[i]), evs[0]["n"], evs[0]["script"], fe["ev"] if fe else None),
+                              {"arm": arms[i], "events": evs, "trace_rejected_at": reached, "first_unmatched_event": fe})
+    run.extra["arms"] = {"in_source": n_total, "compiled": len(ok_arms), "failed_to_compile": len(failed), "scripts": len(scen)}
+    if scen:
+        run.sample({"arm": arms[scen[len(scen) // 2][0][0]], "events": scen[len(scen) // 2][1][:6]})
+    return run.finish()
+
+
 CHECKS = {
     "C01": placement_check,
+    "C08": arms_check,
     "C09": sig_check,
     "C10": sig_check,
     "C13": placement_check,
